@@ -61,6 +61,7 @@ Definition wf_ctxb (c : sctx K) : bool :=
 Definition preb (cl : cname) (c : sctx K) : bool :=
   match cl with
   | cCCCS => ctrl_is_vsrc c
+  | cCCVS => ctrl_is_vsrc c
   | cK => negb (akind_eqb (kind c) KT || akind_eqb (kind c) KTime)
   | cTL => akind_eqb (kind c) KS || akind_eqb (kind c) KDc
   | cTPA | cTPB | cTPG | cTPH | cTPY | cTPZ => negb (tp_has_src c)
